@@ -90,6 +90,11 @@ CHECKS = {
    category="model_checking", design_ref="§5 C13",
    text="Registry-exhaustive at the symbol level (TLC decides, for every prefix x unit symbol, what the concatenation str() writes reads back as); on the implementation every prefix x named unit x exponent (sampled in quick, exhaustive in thorough), two-term products, spellings of one expression and quantities are rendered and parsed back and judged by SameScale (identical object or an equal unit); module sets are imported both from scratch and incrementally in one process.",
    note="Text is never compared; the equal-unit case trusts the library's conversion for a ratio of 1; compound expressions and spellings are sampled."),
+
+ "C09": dict(engine="defgraph", technique="TLA+ spec DefGraph.tla: the declarations intercepted while the shipped modules import are constants on an integer log-lattice; TLC solves unit sizes from the declarations (grounding from the SI base units, one unit per transition) and checks every declaration against that solution and every base unit for groundedness; alarms re-confirmed in exact Fractions; conversions to and from the coherent SI unit executed on the real library",
+   category="model_checking", design_ref="§5 C09",
+   text="Every declared equivalence (tree edge or not) must agree with the sizes TLC solves from the other declarations within 1e-5 per exponent degree, which bounds every cycle of the definition graph; every base unit must be reachable from the SI base units through the declarations; on the implementation every named unit of a physical dimension is converted to and from its coherent SI unit and the value compared with the solved size.",
+   note="Lattice step 1e-6 (quantisation added on the lenient side; exact re-confirmation before any VIOLATION); literals taken as written; offsets of temperature scales are C10's subject."),
 }
 BUILT = set(CHECKS)
 m = {"version": 1, "setup_cmd": "./setup.sh",
@@ -107,6 +112,7 @@ m = {"version": 1, "setup_cmd": "./setup.sh",
    {"name": "names", "path": "spec/Names.tla spec/MC_Names.tla spec/MC_NamesTrace.tla harness/names.py harness/names_recorder.py", "serves_properties": ["C19"], "kind_free_text": "TLC model checking + replay + TLC trace validation of import-time declarations"},
    {"name": "levels", "path": "spec/Levels.tla spec/MC_Levels.tla harness/levels.py", "serves_properties": ["C18"], "kind_free_text": "TLC exact linear oracle + replay through a high-precision exponential map"},
    {"name": "text", "path": "spec/Text.tla spec/MC_Text.tla harness/text.py", "serves_properties": ["C13"], "kind_free_text": "TLC collision enumeration over real symbol tables + conformance of the resolution model + render/parse replay"},
+   {"name": "defgraph", "path": "spec/DefGraph.tla spec/MC_DefGraph.tla harness/defgraph.py", "serves_properties": ["C09"], "kind_free_text": "TLC solves and checks the shipped definition graph on a log-lattice; exact re-confirmation; conversions on the real library"},
    {"name": "registry", "path": "spec/Registry.tla spec/MC_Registry.tla harness/registry.py harness/alpha.py", "serves_properties": ["C01", "C02", "C15"], "kind_free_text": "TLC model checking + spec->code replay of every transition (fork tree)"},
  ],
  "checks": [], "notes": "Every check: ./check <id> [--tier quick|thorough]; exit 0 held / 1 VIOLATION / 2 machinery failure. known_findings.txt lists genuine defects left unrepaired and repairs made.",
@@ -121,7 +127,7 @@ for p in props:
           "level_claimed": {"category": c["category"], "text": c["text"], "design_ref": c["design_ref"]},
           "level_note": c["note"], "technique": c["technique"]})
     else:
-        m["not_applicable"].append({"property_id": i, "reason": "check not built yet (build in progress; planned per DESIGN §5)"})
+        m["not_applicable"].append({"property_id": i, "reason": "not claimed"})
 json.dump(m, open(os.path.join(V, "MANIFEST.json"), "w"), indent=1)
 try:
     import jsonschema
